@@ -607,9 +607,12 @@ where
             }
 
             if do_stream {
-                let runners_empty = runners.is_empty();
-
                 loop {
+                    // Look again every time round: once the last runner
+                    // has finished, next() returns at once and this loop
+                    // would spin until the connection is there.
+                    let runners_empty = runners.is_empty();
+
                     tokio::select! {
                         res_conn = stream_fut.as_mut() => {
                             do_stream = false;
